@@ -142,7 +142,8 @@ func (ex *Exec) nowValue() Value {
 	if ex.lastNow != nil {
 		lo = ex.lastNow
 	}
-	ex.pc = append(ex.pc, ex.ts.Bin(OSLe, lo, reading), ex.ts.Bin(OSLt, reading, ex.ts.BVConst(1<<62, 64)))
+	ex.addPC(ex.ts.Bin(OSLe, lo, reading))
+	ex.addPC(ex.ts.Bin(OSLt, reading, ex.ts.BVConst(1<<62, 64)))
 	ex.lastNow = reading
 	t[0] = ex.ts.BVConst(1, 64)
 	t[1] = reading
@@ -318,9 +319,9 @@ func BaseIntrinsics() map[string]IntrinsicFn {
 		// a symbolic input constrained to [0,n) and then case-split, so that the
 		// counterexample carries the value
 		v := ex.fresh("choice:"+label, bv64)
-		ex.pc = append(ex.pc, ex.ts.Bin(OULt, v, ex.ts.BVConst(uint64(n), 64)))
+		ex.addPC(ex.ts.Bin(OULt, v, ex.ts.BVConst(uint64(n), 64)))
 		k := ex.choose(seq(n), "choice")
-		ex.pc = append(ex.pc, ex.ts.Eq(v, ex.ts.BVConst(uint64(k), 64)))
+		ex.addPC(ex.ts.Eq(v, ex.ts.BVConst(uint64(k), 64)))
 		return ex.ts.BVConst(uint64(k), 64)
 	}
 	m[ZZ+".Assume"] = func(ex *Exec, fr *frame, a []Value) Value { ex.assume(a[0].(*Term)); return nil }
